@@ -24,3 +24,6 @@ package tcp
 //@ func (*dialer).Dial
 //@   before call:Dial#1 assert !held(d.lock)
 //@   before call:Wait#1 assert !held(d.lock)
+//@
+//@ func (*listener).Close$1
+//@   may_close l.closeq once
